@@ -226,6 +226,7 @@ def check(tier):
     # (b) layouts: the same tokens in another layout give the same derived specification
     base_specs = [S.gen_wellformed(rng, collide=0.0) for _ in range(12 if tier == "quick" else 150)]
     lcases, layout_bad, nlay = [], [], 0
+    layout_pos_bad = []
     for sp in base_specs:
         sps = spellings(sp, doc, dlab)
         if not sps:
@@ -238,6 +239,11 @@ def check(tier):
             lcases.append((sp, variant))
             if r0 != r1:
                 layout_bad.append((sp, variant, r0[0], r1[0]))
+            # positions: offset, line and column of every token are those of the text in front of it in THIS layout
+            lt = hook.call({"op": "lex", "text": variant}, timeout=20).get("tokens")
+            mt, mend = max_munch(doc, dlab, C.codepoints(variant) + [10])
+            if lt is not None and mend == "eof" and [[t[0], t[2], t[3], t[4]] for t in lt] != [[t[0], t[2], t[3], t[4]] for t in mt]:
+                layout_pos_bad.append((sp, variant))
     path = os.path.join(C.GEN, "cases_C13_layout.v")
     with open(path, "w") as f:
         f.write(LAYOUT_V % ";\n".join("(%s, %s)" % (C.coq_nat_list(C.codepoints(a)), C.coq_nat_list(C.codepoints(b))) for a, b in lcases))
@@ -248,6 +254,10 @@ def check(tier):
     rep.obligation("implementation: %d layouts (separators, comments, final newline or none) derive the same specification" % nlay, not layout_bad)
     for sp, variant, a, b in layout_bad[:2]:
         rep.failure("layout", {"layout"}, {"input_text": variant, "base_text": sp, "base_result": a, "variant_result": b})
+    rep.obligation("implementation: in every layout the offset, line and column of each token are those of the text in front of it", not layout_pos_bad)
+    for sp, variant in layout_pos_bad[:2]:
+        rep.failure("layout-position", {"layout-position"}, {"input_text": variant, "base_text": sp,
+                                                              "why": "a token's offset/line/column is not the position reached by the text in front of it"})
 
     # (c) padding sweep: every alignment of the tokens against both half boundaries
     pad_specs = [S.gen_wellformed(rng, collide=0.0) for _ in range(3 if tier == "quick" else 8)]
@@ -259,7 +269,7 @@ def check(tier):
         r0 = spec_result(hook.call({"op": "spec", "text": sp}))
         t0 = hook.call({"op": "lex", "text": sp}).get("tokens", [])
         for k in pads:
-            for padder in ((" " * k), ("\n" * k)) if k % 7 == 0 else ((" " * k),):
+            for padder in ((" " * k), ("\n" * k), ("\r\n" * (k // 2) + " " * (k % 2))) if k % 7 == 0 else ((" " * k),):
                 text = padder + sp
                 npad += 1
                 predicted = lookahead_at_boundary(text, doc, dlab)
